@@ -6,7 +6,9 @@ randomised but legal layout freedom; strict-but-tolerant container parser);
 (2) the *reference model* that says what a correct run looks like (block boundaries,
 expected records, conformance and normal-form equality).
 """
+import array as _array
 import bz2
+import collections.abc as _abc
 import datetime
 import decimal
 import json
@@ -267,16 +269,17 @@ def conforms(n, d, logical=True):
         return isinstance(d, str) and d in n.symbols
     if k == "array":
         # documented mapping: any non-string sequence (bytes is a sequence of ints)
-        return isinstance(d, (list, tuple, bytes, bytearray)) and all(conforms(n.items, x) for x in d)
+        return (isinstance(d, (_abc.Sequence, _array.array, bytearray)) and not isinstance(d, str)
+                and all(conforms(n.items, x) for x in d))
     if k == "map":
-        return isinstance(d, dict) and all(isinstance(key, str) for key in d) and \
+        return isinstance(d, _abc.Mapping) and all(isinstance(key, str) for key in d) and \
             all(conforms(n.values, v) for v in d.values())
     if k == "union":
         if isinstance(d, tuple) and len(d) == 2 and isinstance(d[0], str):
             return any(branch_name(b) == d[0] and conforms(b, d[1]) for b in n.branches)
         return any(conforms(b, d) for b in n.branches)
     if k == "record":
-        if not isinstance(d, dict):
+        if not isinstance(d, _abc.Mapping):
             return False
         if "-type" in d and d["-type"] != n.name:
             return False
